@@ -98,6 +98,7 @@ def execute(case: dict) -> dict:
 
     reqs = case["requests"]
     loop = new_loop()
+    loop.max_iters = 300000  # cases are small: a busy loop is reported after 3e5 iterations, not 3e6
     log: list = []
     handled: list[int] = []
     stats = {"responses": 0, "max_queue": 0}
@@ -110,6 +111,11 @@ def execute(case: dict) -> dict:
             except ValueError:
                 i = -1
             handled.append(i)
+            if len(handled) > 3 * len(reqs) + 40 and not stats.get("runaway"):
+                # far more handler calls than requests on the wire: something is replayed; stop it here, judged below
+                stats["runaway"] = len(handled)
+                if request.transport is not None:
+                    request.transport.abort()
             r = reqs[i] if 0 <= i < len(reqs) else {"h": "ret"}
             kind = r.get("h", "ret")
             hdr = {"X-Resp-Id": str(i)}
@@ -175,6 +181,8 @@ def execute(case: dict) -> dict:
             cap = None
 
         def sample() -> None:
+            if stats.get("runaway"):
+                raise Violation("request-handled-repeatedly", f"the handler was called {stats['runaway']} times for {len(reqs)} request(s) on the wire (last ids {handled[-5:]}): a request is being replayed")
             q = getattr(proto, "_messages", None)
             if q is not None and cap:
                 stats["max_queue"] = max(stats["max_queue"], len(q))
